@@ -1820,6 +1820,16 @@ fn gen_c09(thorough: bool, rng: &mut Rng, emit: &mut dyn FnMut(&str, Vec<String>
             }
         }
     }
+    // QUIC application close codes that coincide with HTTP/3 error codes (H3_NO_ERROR is what a
+    // peer sends for a graceful close): the held streams still end with an error, not with a clean
+    // end of stream
+    for code in [0x100u64, 0x101, 0x33, 0x104, 0x10e] {
+        for side in SIDES {
+            for rt in RTS {
+                emit("term", vec![s(rt), s(side), s("quic_close"), s(code), hex(b"bye"), s("streams")]);
+            }
+        }
+    }
     let clones: &[usize] = if thorough { &[0, 1, 2, 3, 4, 8, 50, 1000] } else { &[0, 1, 3] };
     let reps = if thorough { 4 } else { 1 };
     for _ in 0..reps {
